@@ -18,11 +18,11 @@ PROP = dict(
                      'SetLogo is called before SetFont (documented API contract)'],
         level_text='Lean theorems for all geometries in the stated domain and all 32-bit arguments: text console write_frame, '
                    'fill_clip, scroll_exact, no_oob; pixel console fill_clip, scroll_exact, padding/logo untouched, no_oob for '
-                   'Fill/Scroll (models with checked framebuffer access and 32-bit wrap-around arithmetic, specs pointwise in '
+                   'Fill/Scroll, pack_color/pack_component (models with checked framebuffer access and 32-bit wrap-around arithmetic, specs pointwise in '
                    'unbounded arithmetic). Tied to the Go code by regenerated constants/font metadata and a differential run '
                    'with full framebuffer diffs, guard bytes and row padding.',
-        level_note='Partial: the in-grid pixel Write (glyph walk of write8/16/24) and the bit-level meaning of packColor16/24 are '
-                   'not proved; they are covered by the correspondence run and the write-frame / pack-color oracles only '
+        level_note='Partial: the in-grid pixel Write (glyph walk of write8/16/24) is '
+                   'not proved; it is covered by the correspondence run and the write-frame oracle only '
                    '(theorems pix_write_frame_partial, pix_no_oob_partial, padding_untouched_partial say what is proved). '
                    'Trusted: Lean kernel (+ propext, Classical.choice, Quot.sound), the theorem statements and Spec/Console.lean, '
                    'the harness (correspondence is differential testing on generated inputs, not a proof about the Go code). '
